@@ -1,4 +1,5 @@
 import NomtModel.Api.Witness
+import NomtModel.Api.WitnessLemmas
 import NomtModel.Props.C05
 import NomtModel.Props.C08
 /-!
@@ -11,7 +12,11 @@ ascending, operations ascending) must EQUAL it (correspondence run), and the ora
 replays the real witness with the real verifier.
 
 The three statements of the property, for the specified witness, are instances of theorems proved for
-arbitrary keys and arbitrary verified path sets:
+arbitrary keys and arbitrary verified path sets (T6.1 – T6.3).  T6.5 – T6.7 close the remaining gap: the
+specified witness *itself* (`witnessSpec`, grouped by terminal) verifies path by path, passes the argument
+checks of `verify_update` and replays to the root of the updated set (helper lemmas: `Api/WitnessGroup.lean`,
+`Api/WitnessLemmas.lean`).  They are stated for `witnessSpecL` (the key length a parameter,
+`witnessSpecL H 256 = witnessSpec H` by `rfl`) and instantiated at 256 in `T6_7_replay_256`.
 -/
 namespace Nomt.C06
 open Nomt Nomt.Api
@@ -54,5 +59,111 @@ specification `witnessSpec`, for every canonical view. -/
 theorem T6_4_driver_witness_is_spec (view : KVL VH) (hc : Canon 256 0 view) (reads : List Key) (writes : Writes VH) :
     witnessFast H view reads writes = witnessSpec H view reads writes :=
   witnessFast_eq H view hc reads writes
+
+/-- T6.5 **every path of the specified witness verifies and attests the view.**  For every `WPath` of the
+witness there is one `Verified` object `v` — the result of `PathProof::verify` of the witnessed proof against
+the base root with ANY key of the group as key path — whose path is the witnessed path, which has every read
+and written key of the group in scope, and for every attested read `(k, val)`: `val` is the session's view
+`kvGet view k`, confirmed by `v` (`confirm_value` for a present key, `confirm_nonexistence` for an absent one). -/
+theorem T6_5_witness_paths_verify (hs : H.Sound) (L : Nat) (view : KVL VH) (hc : Canon L 0 view)
+    (hlen : ∀ kv ∈ view, kv.1.length = L) (reads : List Key) (writes : Writes VH)
+    (hr : ∀ k ∈ reads, k.length = L) (hw : ∀ kw ∈ writes, kw.1.length = L)
+    (w : WPath Node VH) (hmem : w ∈ witnessSpecL H L view reads writes) :
+    ∃ v, v.path = w.path ∧ v.root = nodeAt H L 0 view ∧
+      (∃ k0, k0.length = L ∧ verify H L w.proof k0 (nodeAt H L 0 view) = .ok v) ∧
+      (∀ o ∈ w.reads ++ w.writes, o.1.length = L ∧
+          verify H L w.proof o.1 (nodeAt H L 0 view) = .ok v ∧ v.inScope o.1 = true) ∧
+      (∀ o ∈ w.reads, o.2 = kvGet view o.1 ∧
+          match o.2 with
+          | some vh => v.confirmValue o.1 vh = some true
+          | none => v.confirmNonexistence o.1 = some true) :=
+  witness_paths_verify H L view reads writes hs hc hlen hr hw w hmem
+
+/-- T6.5b the witness is a partition of the session's operations: its paths are strictly ascending, its
+reads (path by path) are the read keys in ascending order without duplicates, each with the value seen, and
+its writes (path by path) are the batch in ascending key order. -/
+theorem T6_5b_witness_partitions (hs : H.Sound) (L : Nat) (view : KVL VH) (hc : Canon L 0 view)
+    (reads : List Key) (writes : Writes VH)
+    (hr : ∀ k ∈ reads, k.length = L) (hw : ∀ kw ∈ writes, kw.1.length = L)
+    (hd : writes.Pairwise (fun a b => a.1 ≠ b.1)) :
+    (witnessSpecL H L view reads writes).Pairwise (fun a b => bitsLt a.path b.path = true) ∧
+    (witnessSpecL H L view reads writes).flatMap (·.reads) = sortedReads view reads ∧
+    (sortedReads view reads).Pairwise KeyLt ∧
+    (∀ x, x ∈ sortedReads view reads ↔ ∃ k ∈ reads, x = (k, kvGet view k)) ∧
+    (witnessSpecL H L view reads writes).flatMap (·.writes) = sortedWrites writes ∧
+    (sortedWrites writes).Pairwise KeyLt ∧
+    (∀ x, x ∈ sortedWrites writes ↔ x ∈ writes) :=
+  ⟨witnessSpecL_paths_sorted H L view reads writes hs hc hr hw,
+   allReads_eq_sortedReads H L view reads writes hs hc hr hw,
+   sortedReads_sorted view reads, mem_sortedReads view reads,
+   by rw [← allOps_witnessUpdatesL]; exact allOps_eq_sortedWrites H L view reads writes hs hc hr hw,
+   sortedWrites_sorted writes, mem_sortedWrites writes hd⟩
+
+/-- T6.6 **the specified witness passes the argument checks of `verify_update`**: with `witnessUpdatesL` the
+list of (verified path, writes of the path) for the paths that carry writes, every root matches, the paths
+are strictly ascending and every path has non-empty, strictly ascending, in-scope operations. -/
+theorem T6_6_witness_passes_checks (hs : H.Sound) (L : Nat) (view : KVL VH) (hc : Canon L 0 view)
+    (hlen : ∀ kv ∈ view, kv.1.length = L) (reads : List Key) (writes : Writes VH)
+    (hr : ∀ k ∈ reads, k.length = L) (hw : ∀ kw ∈ writes, kw.1.length = L) :
+    checkPaths (nodeAt H L 0 view) none (witnessUpdatesL H L view reads writes) = none :=
+  witnessUpdates_checkPaths H L view reads writes hs hc hlen hr hw
+
+/-- T6.7 **the specified witness replays the session**: `verify_update` over the witnessed paths and writes
+answers `ok` with the root of `kvApply view writes` — the root the store reports after the session (C02) —
+for every canonical view, every read set and every batch with pairwise distinct keys (for an empty batch no
+path carries writes and `verify_update` of no paths answers the base root). -/
+theorem T6_7_witness_replays (hs : H.Sound) (L : Nat) (view : KVL VH) (hc : Canon L 0 view)
+    (hlen : ∀ kv ∈ view, kv.1.length = L) (reads : List Key) (writes : Writes VH)
+    (hr : ∀ k ∈ reads, k.length = L) (hw : ∀ kw ∈ writes, kw.1.length = L)
+    (hd : writes.Pairwise (fun a b => a.1 ≠ b.1)) :
+    pathVerifyUpdate H L (nodeAt H L 0 view) (witnessUpdatesL H L view reads writes)
+      = .ok (nodeAt H L 0 (kvApply view writes)) :=
+  witnessUpdates_replay H L view reads writes hs hc hlen hr hw hd
+
+/-- T6.7 at the key length of the code, on `witnessSpec` itself (`witnessUpdates` is built from `witnessSpec`). -/
+theorem T6_7_replay_256 (hs : H.Sound) (view : KVL VH) (hc : Canon 256 0 view)
+    (hlen : ∀ kv ∈ view, kv.1.length = 256) (reads : List Key) (writes : Writes VH)
+    (hr : ∀ k ∈ reads, k.length = 256) (hw : ∀ kw ∈ writes, kw.1.length = 256)
+    (hd : writes.Pairwise (fun a b => a.1 ≠ b.1)) :
+    checkPaths (nodeAt H 256 0 view) none (witnessUpdates H view reads writes) = none ∧
+    pathVerifyUpdate H 256 (nodeAt H 256 0 view) (witnessUpdates H view reads writes)
+      = .ok (nodeAt H 256 0 (kvApply view writes)) :=
+  ⟨witnessUpdates_checkPaths H 256 view reads writes hs hc hlen hr hw,
+   witnessUpdates_replay H 256 view reads writes hs hc hlen hr hw hd⟩
+
+/-- the length-parametric definitions are the specification at 256 -/
+theorem T6_8_witnessSpecL_256 (view : KVL VH) (reads : List Key) (writes : Writes VH) :
+    witnessSpecL H 256 view reads writes = witnessSpec H view reads writes ∧
+    witnessUpdatesL H 256 view reads writes = witnessUpdates H view reads writes := ⟨rfl, rfl⟩
+
+/-! Non-vacuity (term hasher, 2-bit keys).  The trie of `exS` has the terminals `00`, `01` (leaves at depth 2)
+and `1` (the leaf `11` at depth 1).  The session reads `10` (absent — shares the terminal `1`) and `01`, and
+writes `11 := ⊥`, `00 := 1` (given out of order): three paths; the path `1` carries a read and a write. -/
+def exS : List (Key × Nat) := [([false, false], 7), ([false, true], 8), ([true, true], 9)]
+def exReads : List Key := [[true, false], [false, true]]
+def exWrites : Writes Nat := [([true, true], none), ([false, false], some 1)]
+
+example : (witnessSpecL TH 2 exS exReads exWrites).map (fun w => (w.path, w.reads, w.writes)) =
+    [ ([false, false], [], [([false, false], some 1)]),
+      ([false, true], [([false, true], some 8)], []),
+      ([true], [([true, false], none)], [([true, true], none)]) ] := by rfl
+
+example : (witnessUpdatesL TH 2 exS exReads exWrites).map (fun p => (p.inner.path, p.ops)) =
+    [ ([false, false], [([false, false], some 1)]), ([true], [([true, true], none)]) ] := by decide
+
+example : pathVerifyUpdate TH 2 (nodeAt TH 2 0 exS) (witnessUpdatesL TH 2 exS exReads exWrites)
+    = .ok (nodeAt TH 2 0 [([false, false], 1), ([false, true], 8)]) := by
+  have := T6_7_witness_replays TH TH_sound 2 exS (by simp [exS, Canon, side]) (by simp [exS]) exReads exWrites
+    (by simp [exReads]) (by simp [exWrites]) (by simp [exWrites])
+  rw [this]
+  have : kvApply exS exWrites = [([false, false], 1), ([false, true], 8)] := by decide
+  rw [this]
+
+example : ∀ w ∈ witnessSpecL TH 2 exS exReads exWrites, ∃ v : Verified T Nat, v.path = w.path ∧
+    ∀ o ∈ w.reads, o.2 = kvGet exS o.1 := by
+  intro w hw
+  obtain ⟨v, hp, _, _, _, hr⟩ := T6_5_witness_paths_verify TH TH_sound 2 exS (by simp [exS, Canon, side]) (by simp [exS])
+    exReads exWrites (by simp [exReads]) (by simp [exWrites]) w hw
+  exact ⟨v, hp, fun o ho => (hr o ho).1⟩
 
 end Nomt.C06
